@@ -19,6 +19,10 @@ claimed = {
          "schedule enumeration is outside this family (N/A); data-race freedom follows from the discipline by the lockset argument (meta-assumption); sync primitives are assumed"),
  "C07": ("proof", "Text and FromBOM are proved equal to the statement's predicate (BOM prefix, or no WHATWG binary data byte) for all inputs: both directions, as postconditions of the real functions with a quantified loop invariant.", "5 C07",
          "tree-level placement of the text node (last root child) is part of the tree facts of C03; bytes.HasPrefix assumed contract"),
+ "C08": ("other", "Necessary conditions of completeness are proved on the real scanner: exact byte accounting on success (inspected == parsed, J1) and no byte counted twice (J2) for all eight scanner functions; the level argument equals the nesting depth (ghost depth), so the recursion cap refuses only documents nested deeper than the cap; jsonHelper applies the whole-document test (parsed == len) exactly when limit == 0 or len(raw) < limit and the truncated test (inspected == len, len > 0) otherwise, on the length of the detector's input.", "5 C08",
+         "the unbounded completeness theorem (every RFC 8259 document, cut anywhere, is accepted) needs induction over derivations and is NOT discharged; no bounded stand-in was built in this session"),
+ "C09": ("proof", "Necessary conditions of soundness are proved on the real scanner (tier A): every accepted string, array and object ends in its closing delimiter; no byte is counted twice (inspected <= len); LooksLikeObjectOrArray is exact for the first non-space byte; jsonHelper reports JSON for a whole document only when Parse's complete-value output covers the entire input.", "5 C09",
+         "soundness against the full relaxed grammar (tier B) and truncated-mode prefix soundness are NOT discharged"),
  "C10": ("proof", "The path-stack discipline that sub-type decisions rest on is proved as postconditions of the real scanner functions: every successfully consumed value, array and object leaves p.currPath exactly as it found it (sequence equality), the stack never shrinks below its entry height, and loop invariants carry it through every iteration. Completeness of the query engine (exactly-when) is not claimed here.", "5 C10",
          "modular: callee contracts of the JSON scanner functions; bytes.Equal/TrimSpace assumed contracts"),
  "C11": ("proof", "FromPlain/ascii/latin are proved against the statement: BOM precedence, utf-8 only for UTF-8 valid up to a cut-off final sequence (E2), utf-8 always for ASCII text or valid/cut UTF-8 with a non-ASCII character (E3, all cut lengths 0..3), windows-1252 exactly when a C1 byte occurs (E4). UTF-8 well-formedness is transcribed from RFC 3629; utf8.FullRune/RuneStart are modelled exactly.", "5 C11",
